@@ -3,11 +3,24 @@
 spec -> impl: TLC model-checks the exact CTC semantics (Ctc.tla: brute-force sum over all alignments
 = forward recursion, total mass, collapse) on EVERY matrix of probabilities n/4 with T <= 3 (quick) /
 T <= 4..5 (thorough) and emits the matrices; the harness runs the real CtcDecoder (decode_greedy,
-decode_beam, decode_beam_nbest) on a seeded sample of them - the first ones with EVERY beam width
-1..B+2 (B = number of distinct label sequences), the others with a narrow, a middle and a
-nothing-pruned width - and on seeded random larger matrices (T <= 6, C <= 5, D in {8, 16}), logging
-every hypothesis with its score as the integer round(exp(score) * D^T * 2^10).  Trace_Ctc.tla judges
-every call (K1-K5)."""
+decode_beam, decode_beam_nbest) on every matrix with T <= 2, a seeded sample of the others - the
+first ones with EVERY beam width 1..B+2 (B = number of distinct label sequences), the others with a
+narrow, a middle and a nothing-pruned width - and on seeded random larger matrices (T <= 6, C <= 5,
+D in {8, 16}), logging every hypothesis with its score as the integer round(exp(score) * D^T * 2^10).
+
+Hard histories (spec -> impl): CtcBeam.tla models the prefix beam search itself as a state machine
+(beam = set of [label prefix, positions, p_blank, p_nonblank], exact scaled integers, explicit
+pruning).  TLC checks that this implementation-shaped search refines the contract (distinct
+prefixes, score <= exact forward probability, equality when nothing can be pruned), and then
+SEARCHES the input matrices - row by row over an alphabet of 6 (quick) / 10 (thorough) exact
+distributions n/8 over blank + 2 labels, T <= 6, beam widths 2..4 - for runs that contain the merge
+of two states whose label prefixes agree but whose recorded positions differ: a prefix was pruned
+while its extension and its parent survived, was re-created later and is extended again.  Those
+matrices (546 quick / 2658 thorough) are replayed on the real decoder at the beam width of the
+model run (and, for every 25th, at a width where nothing is pruned).
+
+Trace_Ctc.tla judges every call (K1-K5): pairwise distinct label sequences, finite scores, score <=
+exact probability, equality when nothing is pruned."""
 import json
 import os
 import re
@@ -102,6 +115,23 @@ def run(ctx):
     if ctx.replay:
         return replay(ctx)
     q = ctx.quick
+    # beside the enumeration of small matrices: the beam-search model, model-checked against the contract and used
+    # by TLC to construct inputs whose run prunes, re-creates and re-extends a prefix
+    hz_all = ctx.path("hazards_all.jsonl")
+    side = {}
+
+    def beam_model():
+        try:
+            ctx.tlc_mc("misc/MC_CtcBeam", "misc/MC_CtcBeam_mc.cfg", workers=2, timeout=1200,
+                       label="beam search refines the contract")
+            side["nhz"] = mc_generate(ctx, "misc/MC_CtcBeam", "misc/MC_CtcBeam_genq.cfg" if q else "misc/MC_CtcBeam_gent.cfg",
+                                      hz_all, workers=4 if q else 6, timeout=3600,
+                                      label="inputs whose beam-search run merges states with inconsistent positions")
+        except BaseException as ex:
+            side["err"] = ex
+
+    th = threading.Thread(target=beam_model)
+    th.start()
     mats_all = ctx.path("mats_all.jsonl")
     nm = mc_generate(ctx, "misc/MC_Ctc", "misc/MC_Ctc_quick.cfg" if q else "misc/MC_Ctc_thorough.cfg", mats_all,
                      workers=4 if q else 6, timeout=3600, label="all matrices of probabilities n/4")
@@ -123,18 +153,38 @@ def run(ctx):
     trace = ctx.path("ctc.ndjson")
     ctx.harness("vh-misc", ["ctc", "--mats", mats, "--all-widths", 12 if q else 150,
                             "--random", 50 if q else 1500, "--out", trace])
+    th.join()
+    if "err" in side:
+        raise side["err"]
+    # the hazard matrices: at the width of the model run; every 25th also at the nothing-pruned width (control)
+    hz = ctx.path("hazards.jsonl")
+    with open(hz_all) as f, open(hz, "w") as g:
+        for i, line in enumerate(f):
+            m = json.loads(line)
+            if i % 25 != 0:
+                m["beams"] = m["beams"][:1]
+            g.write(json.dumps(m) + "\n")
+    htrace = ctx.path("ctc_hazards.ndjson")
+    ctx.harness("vh-misc", ["ctc", "--mats", hz, "--out", htrace])
+    ctx.cov["hazard_matrices_generated_by_tlc"] = side["nhz"]
     if not q:
         selftest(ctx, trace)
-    bad, stats = validate_parallel(ctx, split_trace(trace, 1 if q else 6, "ccase"))
-    finish(ctx, trace, bad, stats, nm, nsel)
+    bad, stats = validate_parallel(ctx, split_trace(trace, 1 if q else 6, "ccase") + split_trace(htrace, 1 if q else 3, "ccase"))
+    finish(ctx, [trace, htrace], bad, stats, nm, nsel)
 
 
-def finish(ctx, trace, bad, stats, nm, nsel):
+def finish(ctx, traces, bad, stats, nm, nsel):
     def nontrivial(r):
         return r["T"] >= 2 and r["C"] >= 2
 
-    total, _, dnt, samples = vlib.scan_cases(trace, ["api", "T", "C", "D", "w", "beam", "nbest", "layout"],
-                                             nontrivial, ev="ccase", sample_n=4)
+    total = dnt = 0
+    samples = []
+    for trace in traces:
+        t, _, d, smp = vlib.scan_cases(trace, ["api", "T", "C", "D", "w", "beam", "nbest", "layout"],
+                                       nontrivial, ev="ccase", sample_n=2)
+        total += t
+        dnt += d
+        samples += smp
     ctx.cov["evaluations"] = total
     ctx.cov["distinct_nontrivial"] = dnt
     ctx.cov["traces_validated_against_impl"] = total
@@ -200,4 +250,4 @@ def replay(ctx):
     c = dict(case)
     ctx.harness("vh-misc", ["ctc", "--out", trace, "--only-case", json.dumps(c)])
     res = ctx.tlc_trace(SPEC_T, CFG_T, trace)
-    finish(ctx, trace, res["bad"], res["stats"], 0, 0)
+    finish(ctx, [trace], res["bad"], res["stats"], 0, 0)
